@@ -110,8 +110,8 @@ namespace sqf::parser::preprocessor
                             {
                                 _next();
                                 is_in_block_comment = false;
-                                c = next();
-                                break;
+                                // (next() did the bookkeeping for what it returns already: a quote must not toggle the string state twice)
+                                return next();
                             }
                         }
                     }
